@@ -33,6 +33,9 @@ def fragment():
 
 # ---- unique leaves --------------------------------------------------------------------------------
 
+STR_TAILS = ["", "", "'", "", "%", "_'", "", "\\", "%'q", ""]
+
+
 def uniquify_literals(t):
     return uniquify(t, fields=False)
 
@@ -57,7 +60,8 @@ def uniquify(t, fields=True):
             if k == "float":
                 return ("lit", "float", "%d.5" % (2000 + i))
             if k == "str":
-                return ("lit", "str", "u%dx" % i)
+                # unique marker + (sometimes) characters that need quoting / escaping in SQL
+                return ("lit", "str", "u%dx" % i + STR_TAILS[i % len(STR_TAILS)])
             if k == "date":
                 return ("lit", "date", "%d-%02d-%02d" % (2030 + i // 300, 1 + (i // 25) % 12, 1 + i % 25))
             if k == "datetime":
@@ -81,7 +85,8 @@ def marker(x):
         if k in ("int", "float"):
             return "n:%r" % float(v)
         if k == "str":
-            return "s:" + v
+            m = re.match(r"u\d+x", v)
+            return "s:" + (m.group(0) if m else v)
         if k == "date":
             return "s:" + v
         if k == "datetime":
